@@ -14,6 +14,8 @@ for d in seeded/*/; do
   s=$(basename $d)
   k=$((k+1)); [ $((k % PN)) -eq $PI ] || continue
   cks=${s:0:3}; [ -f $d/checks.txt ] && cks=$(cat $d/checks.txt)
+  # ONLY="C02 C05 ...": only the seeds whose catching check is one of these
+  if [ -n "${ONLY:-}" ]; then case " $ONLY " in *" $cks "*) ;; *) continue;; esac; fi
   git -C $W apply /verif/$d/patch.diff 2>/dev/null || { echo "$s patch does not apply"; git -C $W checkout -q -- .; continue; }
   for c in $cks; do
     out=$(VERIF_REPO=$W ./check $c ${TIER:-quick} 2>&1); rc=$?
